@@ -113,6 +113,9 @@ struct dnsfd {
 static int read_dns(int fd, struct dnsfd *dns_fds, int tun_fd, struct query *q);
 static void write_dns(int fd, struct query *q, const char *data, int datalen, char downenc);
 static void handle_full_packet(int tun_fd, struct dnsfd *dns_fds, int userid);
+#ifdef IODINE_VERIF
+void verif_hook_write_dns(struct query *q, const char *data, int datalen, char downenc);
+#endif
 
 static int
 get_dns_fd(struct dnsfd *fds, struct sockaddr_storage *addr)
@@ -2199,6 +2202,11 @@ write_dns(int fd, struct query *q, const char *data, int datalen, char downenc)
 {
 	char buf[64*1024];
 	int len = 0;
+
+#ifdef IODINE_VERIF
+	/* verification hook: report what is about to be answered to which query */
+	verif_hook_write_dns(q, data, datalen, downenc);
+#endif
 
 	if (q->type == T_CNAME || q->type == T_A) {
 		char cnamebuf[1024];		/* max 255 */
